@@ -64,6 +64,86 @@ pub fn oneshot(sub: &str, _rest: &[String], out: &mut dyn Write) -> bool {
             }
             true
         }
+        // fmt <none|rustfmt|prettyplease> <rustfmt_path|-> <disable_header_comment 0/1> <header> [raw lines...]
+        // writes the bindings through Bindings::write and reports the text
+        "fmt" => {
+            let mut b = bindgen::Builder::default().header(dec(&_rest[3]));
+            b = b.formatter(match _rest[0].as_str() {
+                "rustfmt" => bindgen::Formatter::Rustfmt,
+                "prettyplease" => bindgen::Formatter::Prettyplease,
+                _ => bindgen::Formatter::None,
+            });
+            if _rest[1] != "-" {
+                b = b.with_rustfmt(dec(&_rest[1]));
+            }
+            if _rest[2] == "1" {
+                b = b.disable_header_comment();
+            }
+            for l in &_rest[4..] {
+                b = b.raw_line(dec(l));
+            }
+            match b.generate() {
+                Ok(bindings) => {
+                    let mut v: Vec<u8> = Vec::new();
+                    let r = std::panic::catch_unwind(std::panic::AssertUnwindSafe(|| bindings.write(&mut v)));
+                    match r {
+                        Ok(Ok(())) => writeln!(out, "OK {}", enc(&String::from_utf8_lossy(&v))).unwrap(),
+                        Ok(Err(e)) => writeln!(out, "WRITE-ERR {}", enc(&e.to_string())).unwrap(),
+                        Err(_) => writeln!(out, "PANIC").unwrap(),
+                    }
+                }
+                Err(e) => writeln!(out, "GEN-ERR {}", enc(&e.to_string())).unwrap(),
+            }
+            true
+        }
+        // tokens : stdin lines = percent-encoded Rust source; prints its token stream rendering
+        "tokens" => {
+            use std::io::BufRead;
+            for line in std::io::stdin().lock().lines() {
+                let src = dec(&line.unwrap());
+                match src.parse::<proc_macro2::TokenStream>() {
+                    Ok(ts) => {
+                        // canonical token sequence: punctuation spacing ignored, a trailing comma directly
+                        // before a closing delimiter dropped (formatters add/remove those)
+                        fn flat(ts: proc_macro2::TokenStream, o: &mut Vec<String>) {
+                            for tt in ts {
+                                match tt {
+                                    proc_macro2::TokenTree::Group(g) => {
+                                        let (a, b) = match g.delimiter() {
+                                            proc_macro2::Delimiter::Parenthesis => ("(", ")"),
+                                            proc_macro2::Delimiter::Brace => ("{", "}"),
+                                            proc_macro2::Delimiter::Bracket => ("[", "]"),
+                                            proc_macro2::Delimiter::None => ("", ""),
+                                        };
+                                        o.push(a.to_string());
+                                        flat(g.stream(), o);
+                                        if o.last().map(|s| s == ",").unwrap_or(false) {
+                                            o.pop();
+                                        }
+                                        o.push(b.to_string());
+                                    }
+                                    proc_macro2::TokenTree::Punct(p) => o.push(p.as_char().to_string()),
+                                    other => o.push(other.to_string()),
+                                }
+                            }
+                        }
+                        let mut v0 = Vec::new();
+                        flat(ts, &mut v0);
+                        // also a trailing comma of a generic argument / parameter list: `, >`
+                        let mut v: Vec<String> = Vec::new();
+                        for (i, t) in v0.iter().enumerate() {
+                            if t == "," && v0.get(i + 1).map(|n| n == ">").unwrap_or(false) {
+                                continue;
+                            }
+                            v.push(t.clone());
+                        }
+                        writeln!(out, "OK {}", enc(&v.join(" "))).unwrap()
+                    }
+                    Err(e) => writeln!(out, "ERR {}", enc(&e.to_string())).unwrap(),
+                }
+            }
+            true
+        }
         // cli0 <header> : flags of the builder the CLI makes from just a header
         "cli0" => {
             let args = vec!["bindgen".to_string(), dec(&_rest[0])];
